@@ -62,7 +62,7 @@ def check(n, ctx, a5, seen):
                 ctx.fail('upper_case_parse', {'n': n}, text=s.upper())
             if a5.hex_to_u64(s.rjust(16, '0')) != n or a5.hex_to_u64('0' + s) != n:
                 ctx.fail('zero_padded_parse', {'n': n}, text=s.rjust(16, '0'))
-            if n % 7 == 0 and (a5.hex_to_u64('000' + s.rjust(16, '0')) != n or a5.hex_to_u64(s.upper().rjust(24 + n % 9, '0')) != n):
+            if n % 7 == 0 and (a5.hex_to_u64('000' + s.rjust(16, '0')) != n or a5.hex_to_u64(s.upper().rjust(24 + n % 41, '0')) != n):
                 ctx.fail('zero_padded_parse', {'n': n}, text='000' + s.rjust(16, '0'))
         except Exception as e:
             ctx.fail('parse_raises', {'n': n}, exc=repr(e))
